@@ -34,7 +34,8 @@ MANIFEST = {
             "MuBB/Bragg/ICRU73QO distributions, muon bremsstrahlung and CHIPS neutron elastic are "
             "NOT modelled in Lean (imported tables): oracle only; neutron elastic is not driven. "
             "No worst-case draw bound exists for adversarial streams; KN per-iteration acceptance "
-            ">= 1/2 is proved, draw counts are measured. rotate() needs the extra hypothesis rotOK.",
+            ">= 1/2 is proved, draw counts are measured. Momentum conservation is FALSE for "
+            "EPlusGGInteractor as written (negation proved; known finding eplusgg-momentum).",
 }
 
 EMASS = 0.5109989461
@@ -467,7 +468,7 @@ def run(ctx):
         return LEVEL
     rng = ctx.rng
     # ---- correspondence: model vs implementation, exact
-    n_corr = 24000 if quick else 400000
+    n_corr = 20000 if quick else 400000
     lines = ["consts"]
     corpus = vlib.os.path.join(vlib.CORPUS, "C04")
     if vlib.os.path.isdir(corpus):
@@ -488,7 +489,9 @@ def run(ctx):
             b = om[i] if i < len(om) else "<missing>"
             k = (l.split() or ["empty"])[0]
             kinds[k] = kinds.get(k, 0) + 1
-            tag = k + ":" + ((a.split() or ["?"])[0] if len((a.split() or ["?"])[0]) != 16 else "vec")
+            a0 = (a.split() or ["?"])[0]
+            tag = k + ":" + ("vec" if len(a0) == 16 and all(c in "0123456789abcdef" for c in a0)
+                             else a0)
             outcome_mix[tag] = outcome_mix.get(tag, 0) + 1
             if a not in ("bad-op", "script-exhausted"):
                 distinct.add(l)
@@ -506,7 +509,7 @@ def run(ctx):
                       % (len(diverged), diverged[0]["op"][:70]))
     # ---- impl-side oracle on every interactor (more when something is broken)
     mult = 3 if broken else 1
-    n_or = (30000 if quick else 500000) * mult
+    n_or = (24000 if quick else 500000) * mult
     names = sorted(ORACLE_MODELS)
     olines = []
     for i in range(n_or):
@@ -523,8 +526,13 @@ def run(ctx):
     for l, o in zip(olines, oo + ["<missing>"] * (len(olines) - len(oo))):
         name = l.split()[1]
         r = parse_out(o)
-        if r and r.get("draws") is not None:
-            max_draws[name] = max(max_draws.get(name, 0), r["draws"])
+        if r and r.get("draws") is not None and r["draws"] > max_draws.get(name, (-1, ""))[0]:
+            max_draws[name] = (r["draws"], l if r["draws"] > 1000 else "")
+            if r["draws"] > 20000000 and "| s" in l and (name + ":draws") not in seen:
+                seen.add(name + ":draws")
+                ctx.violation(name + ":draws", "real interactor (%s) needed %d uniform draws for one "
+                              "sample with XorwowRngEngine" % (name, r["draws"]),
+                              {"harness": "harness/interact.cc", "op": l, "impl_output": o})
         t = name + ":" + (o.split() or ["?"])[0]
         omix[t] = omix.get(t, 0) + 1
         if o == "<missing>":
@@ -559,8 +567,8 @@ def run(ctx):
         "executed at Float equal the real interactors' outputs bit-for-bit on every op compared",
         "scripted uniforms are canonical values in [0,1); unit incident direction; documented "
         "preconditions (E > 2·cut Møller, E > cut Bhabha, E >= 2 m_e Bethe–Heitler) are hypotheses",
-        "rotOK (not a documented precondition of rotate): momentum theorems exclude incident "
-        "directions with 0 < sinθ < 0.005 and negative y, where the real code fails (finding)",
+        "rotate() is modelled as repaired in /repo (sin φ keeps the sign of y in the near-pole "
+        "branch); the oracle key rotate-near-z-negative-y guards the old failure",
         "energy samplers backed by imported tables (Seltzer–Berger, relativistic brems, Wentzel, "
         "Rayleigh form factors, Livermore shells/relaxation), Bethe–Heitler above 2 MeV, MuBB, "
         "Bragg/ICRU73QO, muon bremsstrahlung: oracle only; neutron elastic: not driven (no fixture)",
@@ -576,13 +584,15 @@ def run(ctx):
                 "distinct op lines",
         "op_mix": dict(sorted(kinds.items())), "outcome_mix": dict(sorted(outcome_mix.items())),
         "oracle_cases": len(olines) + n_rot, "oracle_failures": n_fail,
-        "oracle_outcomes": dict(sorted(omix.items())), "max_draws_seen": dict(sorted(max_draws.items())),
+        "oracle_outcomes": dict(sorted(omix.items())), "max_draws_seen": {k: v[0] for k, v in sorted(max_draws.items())},
+        "max_draws_ops": {k: v[1] for k, v in sorted(max_draws.items()) if v[1]},
         "diverging_ops": len(diverged), "samples": lines[1:4] + olines[:2],
         "correspondence_broken": broken,
         "explanation": "proved at ℝ for the modelled interactors (see theorems); table-driven "
                        "samplers and rounding are covered by the impl-side oracle only; momentum "
-                       "conservation is false for EPlusGGInteractor as written (negation proved) "
-                       "and for near-pole incident directions with negative y (rotate).",
+                       "conservation is false for EPlusGGInteractor as written (negation proved); "
+                       "end-point uniforms (0, 2^-53, 1-2^-53) give NaN directions / 1-ulp "
+                       "threshold and sign violations in several interactors (keys endpoint-*).",
     })
     return LEVEL
 
